@@ -211,6 +211,16 @@ let run (cmd : string) (a : v) : v =
   | "pre_eigen_prediv", L [I m; I n; qg; dg; qa; da; lam0; d] ->
       vmat m n (pre_eigen_prediv fops (nat_of_int m) (nat_of_int n) (mat_of qg) (mat_of qa)
                   (dgda_of fops (clamp fops (vec_of dg)) (clamp fops (vec_of da)) (getf lam0)) (mat_of d))
+  | "clip", L [lr; kl; L layers] ->
+      (* layers in the order the code visits them; each [m, nw, has_bias, V, D] *)
+      let lay = function L [I m; I nw; I hb; v; d] ->
+          { cm = nat_of_int m; cnw = nat_of_int nw; cbias = (hb <> 0); cV = mat_of v; cD = mat_of d }
+        | _ -> failwith "clayer" in
+      let ls = List.map lay layers in
+      let s = vg_sum fops (getf lr) ls in
+      (match kl with
+       | S "none" -> L [vf s; S "none"]
+       | k -> L [vf s; vf (nu fops (getf k) s)])
   | _ -> failwith ("unknown command or bad argument: " ^ cmd)
 
 let () =
